@@ -443,7 +443,9 @@ func c08TPTable() []c08TPEntry {
 	num("max_ack_delay", 0xb, 0, 16383, 16384)
 	num("active_connection_id_limit", 0xe, 1, 2, 1<<62-1)
 	num("max_datagram_frame_size", 0x20, 0, 65535)
-	num("min_ack_delay", 0xff04de1b, 0, 25000, 25001, 1<<62-1)
+	// 18446744073709552 = ceil(2^64/1000): the smallest value whose conversion to nanoseconds
+	// wraps around to a small positive Duration
+	num("min_ack_delay", 0xff04de1b, 0, 25000, 25001, 18446744073709552, 1<<62-1)
 	t = append(t,
 		c08TPEntry{name: "initial_max_data(len 2, 1-byte varint)", id: 0x4, body: []byte{0x01, 0x00}},
 		c08TPEntry{name: "initial_max_data(empty)", id: 0x4},
